@@ -191,13 +191,16 @@ Fixpoint raw (t : ty) : ty :=
 Section ABI.
   Variable T : target.
 
-  Fixpoint abi_align (t : ty) : N :=
+  (* [fx] = true: the repaired table (fix: 64-bit scalars take the alignment the LLVM data
+     layout gives them, Builder.Align64); false: the original table (always 8) *)
+  Fixpoint abi_align (fx : bool) (t : ty) : N :=
     match t with
     | TBool => 1
-    | TInt w => w
-    | TF32 => 4 | TF64 => 8 | TC64 => 4 | TC128 => 8
-    | TArr _ e => abi_align e
-    | TStruct fs => fold_right (fun f m => N.max (abi_align f) m) 1 fs
+    | TInt w => if fx then nat_align T w else w
+    | TF32 => 4 | TC64 => 4
+    | TF64 | TC128 => if fx then ll64 T else 8
+    | TArr _ e => abi_align fx e
+    | TStruct fs => fold_right (fun f m => N.max (abi_align fx f) m) 1 fs
     | _ => ptr T
     end.
 
@@ -215,38 +218,29 @@ Section ABI.
     | _ => ptr T
     end.
 
-  (* PtrBytes.  The struct case mirrors the loop of the source: [bytes] is overwritten by
-     every field, so after the loop it is the PtrBytes of the LAST field, while [field]
-     is the index of the last field with pointers. *)
-  Fixpoint nth_or0 (l : list N) (i : nat) : N :=
-    match l, i with
-    | x :: _, O => x
-    | _ :: r, S j => nth_or0 r j
-    | [], _ => 0
-    end.
+  (* PtrBytes.  The struct case is a loop over the fields that remembers the last field with
+     pointers and a byte count, then adds the byte count to that field's offset
+     (Sizes.Offsetsof on the raw fields).  [fx] = false is the original loop, in which the byte
+     count is overwritten by EVERY field (so it ends up as the PtrBytes of the last field);
+     [fx] = true is the repaired loop, which updates both together. *)
+  Definition pb_step (fx : bool) (acc : option N * N) (ob : N * N) : option N * N :=
+    let '(o, b) := ob in
+    if b =? 0 then (fst acc, if fx then snd acc else b) else (Some o, b).
+  Definition pb_result (acc : option N * N) : N :=
+    match fst acc with None => 0 | Some o => o + snd acc end.
 
-  Fixpoint abi_ptrbytes (t : ty) : N :=
+  Fixpoint abi_ptrbytes (fx : bool) (t : ty) : N :=
     match t with
     | TStr | TUPtr | TPtr | TSlice | TMap | TChan => ptr T
     | TIface => 2 * ptr T
     | TFunc => 2 * ptr T          (* struct {$f; $data}: offset of $data + PtrBytes($data) *)
     | TArr n e =>
         if n =? 0 then 0
-        else let b := abi_ptrbytes e in
+        else let b := abi_ptrbytes fx e in
              if b =? 0 then 0 else n * abi_size e - abi_size e + b
     | TStruct fs =>
-        let pbs := map abi_ptrbytes fs in
-        (* index of the last field with pointers, PtrBytes of the last field *)
-        let '(field, bytes) :=
-          (fix scan (i : nat) (l : list N) (acc : option nat * N) : option nat * N :=
-             match l with
-             | [] => acc
-             | b :: r => scan (S i) r (if b =? 0 then (fst acc, b) else (Some i, b))
-             end) O pbs (None, 0) in
-        match field with
-        | None => 0
-        | Some i => nth_or0 (go_offsets T (map raw fs)) i + bytes
-        end
+        pb_result (fold_left (pb_step fx)
+                     (combine (go_offsets T (map raw fs)) (map (abi_ptrbytes fx) fs)) (None, 0))
     | _ => 0
     end.
 End ABI.
@@ -297,9 +291,10 @@ Definition llvm_target (T : target) : Prop :=
 Definition top_fields (t : ty) : list ty :=
   match t with TStruct fs => fs | _ => [] end.
 
-Definition observe (T : target) (t : ty) : list N :=
+(* fxa: descriptor alignment repaired (Align64); fxp: PtrBytes loop repaired *)
+Definition observe (fxa fxp : bool) (T : target) (t : ty) : list N :=
   [ go_size T t; go_align T t; ll_size T t; ll_align T t;
-    abi_size T t; abi_align T t; abi_ptrbytes T t;
+    abi_size T t; abi_align T fxa t; abi_ptrbytes T fxp t;
     go_size T (raw t); go_align T (raw t); ll_ptr_end T t ]
   ++ go_offsets T (top_fields t) ++ ll_offsets T (top_fields t)
   ++ go_offsets T (top_fields (raw t)).
